@@ -43,6 +43,7 @@ import ZygoVerif.Proofs.C01GenSites
 import ZygoVerif.Proofs.C01VM
 import ZygoVerif.Generated.PanicSites
 import ZygoVerif.Generated.StackSites
+import ZygoVerif.Generated.GenDispatch
 namespace ZygoVerif.C01
 open ZygoVerif.Parser ZygoVerif.Lexer ZygoVerif.GenSites
 
@@ -65,7 +66,7 @@ def Classified : List (String × Cover) :=
     ("AssignInstr.Execute", .behaviour), ("BindlistInstr.Execute", .residual), ("Blake2bUint64", .residual),
     ("ByteSliceToChunkedBase64StringNotJoined", .residual), ("Closing.TopScope", .behaviour), ("CountPostHook", .residual),
     ("CountPreHook", .residual), ("DebugInstr.Execute", .residual), ("DecodeChar", .sites),
-    ("EvalFunction", .residual), ("Generator.GenerateAssert", .sites), ("Generator.GenerateAssignment", .residual),
+    ("EvalFunction", .residual), ("Generator.GenerateAssert", .sites), ("Generator.GenerateAssignment", .sites),
     ("Generator.GenerateBegin", .sites), ("Generator.GenerateBreak", .sites), ("Generator.GenerateBuilder", .residual),
     ("Generator.GenerateCallBySymbol", .sites), ("Generator.GenerateCond", .sites), ("Generator.GenerateContinue", .sites),
     ("Generator.GenerateDef", .sites), ("Generator.GenerateDefmac", .sites), ("Generator.GenerateDefn", .sites),
@@ -340,6 +341,30 @@ example : ∀ a : Arg, NoPanic ((fun _ => pure ()) a : P Unit) := fun _ => np_pu
 example : isErr (genForm (fun _ => pure ()) (fun _ => true) "cond" []) = true := by decide
 example : isOk (genForm (fun _ => pure ()) (fun _ => true) "and" []) = true := by decide
 example : isOk (genForm (fun _ => pure ()) (fun _ => true) "for" [.arr [.other, .other, .other]]) = true := by decide
+
+/-- `Generator.Generate`, the pair case: a dotted pair in code position is data; the
+panic-capable `GenerateAssignment` (`ListToArray` + `panicOn`) is reached by proper lists only
+— for every pair shape. -/
+theorem generate_pair_dispatch_no_panic (sub : Arg → P Unit) (hs : ∀ a, NoPanic (sub a)) (p : PairShape) :
+    NoPanic (genPair sub p) :=
+  genPair_np hs p
+
+example : isOk (genPair (fun _ => pure ()) ⟨false, some 1, true, 3⟩) = true := by decide
+
+/-- The guard order matters: testing for an assignment before testing for a proper list
+sends `(a = 1 \ 2)` into the `panicOn`. -/
+theorem assign_before_list_counterexample :
+    isPanic (Legacy.genPairAssignFirst (fun _ => pure ()) ⟨false, some 1, true, 3⟩) = true := by decide
+
+/-- … and in the current source the call of `GenerateAssignment` in the `*SexpPair` case of
+`Generate` IS dominated by the `IsList(e)` test (T1: regenerated from generator.go on every
+run; lexical domination through if-bodies, else branches and early returns). -/
+def guardedByIsList (c : String × List String) : Bool :=
+  c.1 != "GenerateAssignment" || c.2.contains "IsList(e)" || c.2.contains "!(!IsList(e))"
+
+theorem pair_dispatch_guarded :
+    Generated.GenDispatch.pairCase.all guardedByIsList = true ∧
+    (Generated.GenDispatch.pairCase.any fun c => c.1 == "GenerateAssignment") = true := by decide +kernel
 
 /-- Before fix cc83369 `(and)` / `(or)` indexed `args[-1]`. -/
 theorem legacy_and_counterexample (sub : Arg → P Unit) :
